@@ -1,7 +1,7 @@
 """dataclasses for the C28 harness, defined in a module WITHOUT `from __future__ import annotations`"""
 from dataclasses import dataclass, field
 from typing import Any
-from hio.help import RegDom, RawDom, registerify
+from hio.help import RegDom, RawDom, IceRegDom, registerify
 
 
 @registerify
@@ -35,4 +35,15 @@ class PRaw(RawDom):
     inner: PFlat = field(default_factory=PFlat)
 
 
-CLASSES = dict(flat=PFlat, nested=PNested, deep=PDeep, raw=PRaw)
+@registerify
+@dataclass(frozen=True)
+class PIce(IceRegDom):
+    """a FROZEN data object: its fields cannot be rebound, but a list / dict / nested object it holds can still change in place"""
+    a: Any = None
+    b: int = 0
+    d: list = field(default_factory=list)
+    e: dict = field(default_factory=dict)
+    inner: PFlat = field(default_factory=PFlat)
+
+
+CLASSES = dict(flat=PFlat, nested=PNested, deep=PDeep, raw=PRaw, ice=PIce)
